@@ -275,6 +275,8 @@ def extra_checks(tier, seed):
         c['acls'] = ['AsyncMachine', 'HierarchicalAsyncMachine', 'AsyncGraphMachine', 'HierarchicalAsyncGraphMachine'][i % 4]
         if i % 2 == 0:
             c['batch_removals'] = 1     # consecutive removals of one callback become one remove_model([...]) call
+        if len(c['models']) == 1 and i % 3 != 0:
+            c['self_model'] = 1         # the machine is its own model (model='self')
         cases.append(c)
     mo = F.run_model(1, [c09.enc_queue(c) + [True] for c in cases])
     io = F.run_impl('c05', 'impl_async_queue', cases)
